@@ -29,6 +29,7 @@ type streamD struct {
 	Kind   string   `json:"kind"` // reader | writerto | swriter
 	Pieces []hlib.B `json:"pieces"`
 	Fail   bool     `json:"fail,omitempty"`
+	With   bool     `json:"with,omitempty"` // the end (io.EOF or the error) is returned together with the last bytes
 }
 
 type opD struct {
@@ -100,25 +101,33 @@ type pieceReader struct {
 	pieces [][]byte
 	i, off int
 	fail   bool
+	with   bool // iotest.DataErrReader style: the last bytes come with the final error
 }
 
 var errBoom = errors.New("verif: stream read error")
+
+func (r *pieceReader) end() error {
+	if r.fail {
+		return errBoom
+	}
+	return io.EOF
+}
 
 func (r *pieceReader) Read(p []byte) (int, error) {
 	if len(p) == 0 {
 		return 0, nil
 	}
 	if r.i >= len(r.pieces) {
-		if r.fail {
-			return 0, errBoom
-		}
-		return 0, io.EOF
+		return 0, r.end()
 	}
 	n := copy(p, r.pieces[r.i][r.off:])
 	r.off += n
 	if r.off == len(r.pieces[r.i]) {
 		r.i++
 		r.off = 0
+	}
+	if r.with && r.i >= len(r.pieces) {
+		return n, r.end()
 	}
 	return n, nil
 }
@@ -145,7 +154,7 @@ func streamCoq(s *streamD) string {
 	for i, p := range s.Pieces {
 		ps[i] = p
 	}
-	return hlib.App("mkStream", kind, pk.HexList(ps), hlib.Bool(s.Fail))
+	return hlib.App("mkStream", kind, pk.HexList(ps), hlib.Bool(s.Fail), hlib.Bool(s.With && s.Kind == "reader"))
 }
 
 func apply(ctx *fasthttp.RequestCtx, o opD) string {
@@ -289,7 +298,7 @@ func apply(ctx *fasthttp.RequestCtx, o opD) string {
 			for i, p := range s.Pieces {
 				ps[i] = p
 			}
-			r := &pieceReader{pieces: ps, fail: s.Fail}
+			r := &pieceReader{pieces: ps, fail: s.Fail, with: s.With}
 			if o.Vr%2 == 0 {
 				ctx.SetBodyStream(r, size)
 			} else {
@@ -600,10 +609,10 @@ func rbodyOp(r *rand.Rand) opD {
 		if kind == "swriter" && len(ps) > 1 {
 			ps = ps[:1]
 		}
-		return opD{T: "SetBodyStream", N: -1, S: &streamD{Kind: kind, Pieces: ps}, Vr: r.Intn(6)}
+		return opD{T: "SetBodyStream", N: -1, S: &streamD{Kind: kind, Pieces: ps, With: r.Intn(3) == 0}, Vr: r.Intn(6)}
 	case 9, 10: // stream of known, correct size
 		ps := rpieces(r)
-		return opD{T: "SetBodyStream", N: plen(ps), S: &streamD{Kind: hlib.Pick(r, []string{"reader", "writerto", "gwriterto"}), Pieces: ps}, Vr: r.Intn(6)}
+		return opD{T: "SetBodyStream", N: plen(ps), S: &streamD{Kind: hlib.Pick(r, []string{"reader", "writerto", "gwriterto"}), Pieces: ps, With: r.Intn(3) == 0}, Vr: r.Intn(6)}
 	default:
 		return opD{T: "Error", V: hlib.Bytes(r, bodyAlpha, 20), N: hlib.Pick(r, []int64{400, 404, 500, 503, 200})}
 	}
@@ -697,14 +706,14 @@ func gen(r *rand.Rand, i int) desc {
 			decl = 0
 			ps = append(ps, hlib.B("x"))
 		}
-		q.Ops = []opD{{T: "SetBodyStream", N: decl, S: &streamD{Kind: "reader", Pieces: ps}, Vr: r.Intn(2)}}
+		q.Ops = []opD{{T: "SetBodyStream", N: decl, S: &streamD{Kind: "reader", Pieces: ps, With: r.Intn(2) == 0}, Vr: r.Intn(2)}}
 		d.Reqs = append(d.Reqs[:r.Intn(len(d.Reqs))], q)
 		d.Tag = "mismatch-reader"
 	case 1: // read error
 		q := rreq(r)
 		ps := rpieces(r)
 		decl := hlib.Pick(r, []int64{-1, plen(ps), plen(ps) + 3, 0})
-		q.Ops = []opD{{T: "SetBodyStream", N: decl, S: &streamD{Kind: "reader", Pieces: ps, Fail: true}, Vr: r.Intn(2)}}
+		q.Ops = []opD{{T: "SetBodyStream", N: decl, S: &streamD{Kind: "reader", Pieces: ps, Fail: true, With: r.Intn(2) == 0}, Vr: r.Intn(2)}}
 		d.Reqs = append(d.Reqs[:r.Intn(len(d.Reqs))], q)
 		d.Tag = "stream-read-error"
 	case 2: // size mismatch, short, WriterTo stream (allowed: fewer bytes than declared, then close)
@@ -869,6 +878,25 @@ func corpus() []desc {
 	// the same calls answering a HEAD request are harmless
 	add("skipbody-head", two("HEAD", opD{T: "SetBody", V: hlib.B("hello")}, opD{T: "SkipBody", B: true}))
 	add("skipbody-false", two("GET", opD{T: "SkipBody", B: true}, opD{T: "SetBody", V: hlib.B("hello")}, opD{T: "SkipBody", B: false}))
+	// streams whose Read returns the last bytes together with io.EOF or with an error (io.Reader contract,
+	// iotest.DataErrReader), around the 4096-byte copy buffer, of known and unknown size, one or two pieces
+	for _, n := range []int{1, 20, 4095, 4096, 4097, 10000} {
+		data := big[:n]
+		for _, fail := range []bool{false, true} {
+			for _, m := range []string{"GET", "HEAD"} {
+				for _, decl := range []int64{-1, int64(n)} {
+					add("data-with-end", two(m, opD{T: "SetBodyStream", N: decl, S: &streamD{Kind: "reader", Pieces: []hlib.B{hlib.B(data)}, Fail: fail, With: true}}))
+				}
+			}
+			if n > 1 {
+				add("data-with-end", two("GET", opD{T: "SetBodyStream", N: -1, S: &streamD{Kind: "reader", Pieces: []hlib.B{hlib.B(data[:n/2]), hlib.B(data[n/2:])}, Fail: fail, With: true}, Vr: 1}))
+				add("data-with-end", two("POST", opD{T: "SetBodyStream", N: int64(n), S: &streamD{Kind: "reader", Pieces: []hlib.B{hlib.B(data[:1]), hlib.B(data[1:])}, Fail: fail, With: true}, Vr: 1}))
+			}
+		}
+		// declared size off by one, the end still rides on the last bytes
+		add("data-with-end", two("GET", opD{T: "SetBodyStream", N: int64(n) + 1, S: &streamD{Kind: "reader", Pieces: []hlib.B{hlib.B(data)}, With: true}}))
+		add("data-with-end", two("GET", opD{T: "SetBodyStream", N: int64(n) - 1, S: &streamD{Kind: "reader", Pieces: []hlib.B{hlib.B(data)}, With: true}}))
+	}
 	// status sweep: every status class x {GET, HEAD} x {in-memory body, stream of known size, chunked stream, no body},
 	// each followed by a second pipelined request: the reader must find exactly one response and the next one at its end
 	for _, st := range []int64{100, 101, 102, 103, 199, 200, 201, 202, 203, 204, 205, 206, 207, 208, 226, 299, 300, 301, 302, 303, 304, 305, 307, 308,
